@@ -90,9 +90,15 @@ func (e *ServiceIntentionsConfigEntry) UpdateSourceByLegacyID(legacyID string, u
 	return false
 }
 
+// UpsertSourceByName replaces the source with the given name that lives in
+// the same tenancy (peer / sameness group) as the upserted value, or appends
+// the value. A source of the same name from another peer or sameness group is
+// a different intention and must not be replaced.
 func (e *ServiceIntentionsConfigEntry) UpsertSourceByName(sn ServiceName, upsert *SourceIntention) {
 	for i, src := range e.Sources {
-		if src.SourceServiceName() == sn {
+		if src.Peer == upsert.Peer &&
+			src.SamenessGroup == upsert.SamenessGroup &&
+			src.SourceServiceName() == sn {
 			e.Sources[i] = upsert
 			return
 		}
@@ -117,9 +123,12 @@ func (e *ServiceIntentionsConfigEntry) DeleteSourceByLegacyID(legacyID string) b
 	return false
 }
 
+// DeleteSourceByName deletes the LOCAL source with the given name. The
+// by-name intention APIs cannot address peered or sameness-group sources, so
+// a source of the same name from a peer or sameness group is left alone.
 func (e *ServiceIntentionsConfigEntry) DeleteSourceByName(sn ServiceName) bool {
 	for i, src := range e.Sources {
-		if src.SourceServiceName() == sn {
+		if src.Peer == "" && src.SamenessGroup == "" && src.SourceServiceName() == sn {
 			// Delete slice element: https://github.com/golang/go/wiki/SliceTricks#delete
 			//    a = append(a[:i], a[i+1:]...)
 			e.Sources = append(e.Sources[:i], e.Sources[i+1:]...)
